@@ -94,11 +94,13 @@ func partByKey(key string) bs.PartitionFunc {
 		if !ok {
 			return "none"
 		}
-		s := strOf(v)
-		if len(s) > 12 {
-			s = s[:12]
+		// Partition ids travel through the metadata JSON, which can only carry
+		// valid UTF-8: sanitize and truncate on a rune boundary.
+		rs := []rune(strings.ToValidUTF8(strOf(v), "?"))
+		if len(rs) > 12 {
+			rs = rs[:12]
 		}
-		return "p_" + s
+		return "p_" + string(rs)
 	}
 }
 
